@@ -111,6 +111,8 @@ def impl(case):
             obj.update(doc)
         else:
             obj[:] = doc
+    from .evalbase import used_before
+    used_before(c, obj)
     try:
         out["matches"] = BASE.show_matches(list(c.finditer(obj)))
     except Exception as e:  # noqa: BLE001
